@@ -5,6 +5,17 @@
    level-triggered, sound and complete.  Real preemption inside system calls, signal latency
    and wall-clock time are outside the model (design/C17.md).
 
+   Counted (14 theorems): C17_invariant, _wake, _wake_never_sleeps, _wake_progress,
+   _resize_progress, _returns_within, _wake_returns_within, _fifo, _quit, _poll_keeps_settings,
+   _restore, _closing_delivered, _closing_delivered_short_writes (all _partial) and
+   C17_closing_needs_a_reading_peer_refuted (boundary witness of the domain assumption "the peer
+   eventually reads").  Not counted: the lemmas C17_wake_request_partial,
+   C17_returns_when_idle_partial, C17_wake_returns_now_partial (true by definition of the model),
+   the examples and the pin.  Only wake requests have a bound on the return of poll; every other
+   event keeps poll's flush-first contract.  Model = the code on /repo main (fixes de62e95,
+   68e120b, 1cf853f + afe2796, adc719b, ab83088, 58259f6 included; e293376 concerns escape sequence
+   resize mode, which is outside the model and run on the pty only).
+
    Vocabulary
      poll finite s sched   one call of poll (finite = a timeout was given) from state s under an
                            arbitrary schedule `sched` (one `round_env` per evaluation of the loop
